@@ -43,10 +43,20 @@ for _w in TOOL_WORDS:
 _TOOL_BY_LEN = {k: sorted(v) for k, v in _TOOL_BY_LEN.items()}
 
 
+_PREFIX_BY_LEN = {}
+for _w in TOOL_WORDS + ["if", "ifs", "iface", "sizeof", "return", "static", "struct", "typedef", "while", "const", "unsigned", "size_t"]:
+    for _j in range(1, len(_w) + 1):
+        _PREFIX_BY_LEN.setdefault(_j, set()).add(_w[:_j])
+    for _j in range(len(_w) + 1, len(_w) + 4):
+        _PREFIX_BY_LEN.setdefault(_j, set()).add(_w + "xyz"[:_j - len(_w)])     # the word followed by something
+_PREFIX_BY_LEN = {k: sorted(v) for k, v in _PREFIX_BY_LEN.items()}
+
+
 def near_special(d, body):
     """a same-length, same-class name that is a fragment of a word the tool might treat specially
     (bugs in special-name handling live in a tiny region of the name space: go there on purpose)"""
-    cands = (_TOOL_BY_LEN if d.bool(0.5) else _BY_LEN).get(len(body), [])
+    which = d.int(0, 2)   # fragments of the tool's words / prefixes of special words (or such a word plus a tail) / fragments of any special word
+    cands = (_TOOL_BY_LEN if which == 0 else _PREFIX_BY_LEN if which == 1 else _BY_LEN).get(len(body), [])
     up = body.isupper()
     ok = [c for c in cands if all((a in LOW or a in UP) == (b in LOW) and (a == "_") == (b == "_") and (a in DIG) == (b in DIG)
                                   for a, b in zip(body, c))]
@@ -127,7 +137,7 @@ def case(d):
     elif k == 2:  # an operator glued to a parenthesised identifier (is it a cast? that must not depend on how the name is spelled)
         p = family.member_of(d, violating=1.0, ftype="c", only=("O12",))
     elif k == 3:  # a function-like macro that stringifies / pastes its parameter (the parameter is a user identifier next to '#')
-        p = family.member_of(d, violating=1.0, opts={"force": ("define",)}, only=("P02b",))
+        p = family.member_of(d, violating=1.0, ftype="h" if d.bool(0.7) else "c", opts={"force": ("define",)}, only=("P02b",))
     elif k == 1:  # a badly named macro
         p = family.member_of(d, violating=1.0, opts={"force": ("define",)}, only=("P01",))
     else:
